@@ -517,13 +517,14 @@ FAULTS = {
                          'add t0, t0, bar', 'lui x99, 1', 'jal x40, {label}', 'sub s0, s0, x77', 'not t0, q1', 'jr q5', 'li y1, 5',
                          'slli t0, t0, 32', 'srai s0, s0, -1', 'srli s0, s0, NOSHAMT', 'jalr q1', 'neg t0, x33', 'bnez q3, {label}',
                          'lw x8, 0(x99)', 'sw x99, 0(x8)', 'and s0, s0, q8', 'addi x8, qq, 4', 'li y1, 0x12345678', 'li q2, -100000', 'li zz, 0xfffff800',
-                         'seqz t0, q7', 'sgtz q1, t0', 'add {r}, {r}, q9', 'sw {r}, 0(q2)', 'bgt q1, t0, {label}', 'blez q9, {label}', 'csrrw q1, t0, 0x300', 'mul t0, t1, q2', 'amoadd.w t0, t1, q3'],
+                         'seqz t0, q7', 'sgtz q1, t0', 'addi {rd}, zero, 1', 'mv t0, {rs}', 'lw a0, 4({base})', 'add t0, t1, %s', 'sub {0}, t0, t1', 'addi t0, %(r)s, 1', 'add {r}, {r}, q9', 'sw {r}, 0(q2)', 'bgt q1, t0, {label}', 'blez q9, {label}', 'csrrw q1, t0, 0x300', 'mul t0, t1, q2', 'amoadd.w t0, t1, q3'],
     'undefined-label': ['beq t0, t1, nolabel', 'jal ra, nolabel', 'j nolabel', 'call nolabel', 'tail nolabel', 'dw nolabel', 'li t0, nolabel',
                         'lui t0, %hi(nolabel)', 'addi t0, t0, %lo(nolabel)', 'pack <I %position(nolabel, 0)', 'beqz t0, nolabel',
                         'bgt t0, t1, nolabel', 'jal nolabel', 'bne s0, x0, nolabel', 'addi t0, t0, %offset(nolabel)', 'blez a0, nolabel'],
     'undefined-constant': ['addi t0, t0, NOCONST', 'KX = NOCONST + 1', 'db NOCONST', 'li t0, NOCONST * 2', 'lw t0, NOCONST(sp)',
                            'lui t0, %hi(NOCONST)', 'pack <I NOCONST', 'dw NOCONST + 4', 'andi s0, s0, NOCONST', 'KX = NOCONST'],
-    'malformed-expr': ['addi t0, t0, (1 +', 'addi t0, t0, 1 +* 2', 'KX = 3 +', 'db 1 **', 'addi t0, t0, %hi(', 'lui t0, %lo(', 'KX = ) 4',
+    'malformed-expr': ['addi t0, t0, 1 << -1', 'KX = 1 << -1', 'KX = [1][5]', 'KX = {}[0]', 'dw 1 << -1', 'li t0, 1 << -1', 'KX = 5 % 0', 'KX = (1).foo', 'KX = -"a"',
+                       'addi t0, t0, (1 +', 'addi t0, t0, 1 +* 2', 'KX = 3 +', 'db 1 **', 'addi t0, t0, %hi(', 'lui t0, %lo(', 'KX = ) 4',
                        'li t0, 5 5', 'dw 1 2', 'addi t0, t0, 0x', 'addi t0, t0', 'lw t0', 'KX = ', 'pack <I', 'db', 'addi t0, t0, %position(',
                        'beq t0, t1', 'lui t0', 'add t0, t1', 'jal', 'align', 'align 4 4', 'sw t0, 4(', 'bytes 0x', 'pack'],
     'non-integer-expr': ['addi t0, t0, 1.5', 'KX = 1.5', 'db 2.5', 'KX = 3 / 2', 'bytes 1.5', 'ints 1 + 2', 'bytes foo', 'KX = "abc"',
